@@ -14,7 +14,8 @@ func symName() string {
 }
 
 // HDelete (C09): destination tree = top-level entries with symbolic one-letter names
-// (files or directories, a directory may hold children with symbolic names); the
+// (files, directories or symlinks to a directory; a directory may hold children with
+// symbolic names); the
 // sender's list is "." plus an arbitrary subset of those entries plus one name that
 // does not exist locally. After the delete pass exactly the unlisted entries are gone
 // (directories with their subtrees) - unless the sender reported I/O errors or this
@@ -26,6 +27,7 @@ func HDelete() {
 	type ent struct {
 		name   string
 		isDir  bool
+		isLink bool
 		listed bool
 		parent int // index of parent entry, -1 for top level
 	}
@@ -37,8 +39,9 @@ func HDelete() {
 				vassume(e.name != n)
 			}
 		}
-		isDir := nd_bool()
-		ents = append(ents, ent{name: n, isDir: isDir, listed: nd_bool(), parent: -1})
+		kind := nd_range(0, 2) // file, directory, symlink to a directory
+		isDir := kind == 1
+		ents = append(ents, ent{name: n, isDir: isDir, isLink: kind == 2, listed: nd_bool(), parent: -1})
 		idx := len(ents) - 1
 		if isDir {
 			fsys.Add(&vfsx.Node{Name: n, Kind: vfsx.KDir, Perm: 0o755})
@@ -58,6 +61,9 @@ func HDelete() {
 				}
 				ents = append(ents, ent{name: full, listed: l, parent: idx})
 			}
+		} else if kind == 2 {
+			// a symlink is an entry of its own, whatever it points to
+			fsys.Add(&vfsx.Node{Name: n, Kind: vfsx.KLink, Perm: 0o777, Target: "."})
 		} else {
 			fsys.Add(&vfsx.Node{Name: n, Kind: vfsx.KReg, Perm: 0o644, Data: []byte{9}})
 		}
@@ -68,6 +74,9 @@ func HDelete() {
 			mode := int32(0o100644)
 			if e.isDir {
 				mode = 0o040755
+			}
+			if e.isLink {
+				mode = 0o120777
 			}
 			fl = append(fl, &File{Name: e.name, Mode: mode, ModTime: time.Unix(0, 0)})
 		}
